@@ -187,6 +187,9 @@ class ReplayEngine:
     def tag(self, **kw):
         self.sig.update(kw)
 
+    def witness(self, label, cond):
+        pass
+
     # --- obligations
     def oblige(self, label, cond, **sig):
         self.evaluated += 1
